@@ -238,8 +238,8 @@ func ruleC15CheckFirst(c *Ctx, r *R) {
 		ipkg := fn.Pkg
 		pf := &PF{N: 2, InScope: func(f *ssa.Function) bool { return f.Pkg == ipkg && f != fn }}
 		pf.Edge = func(f *ssa.Function, g guard, q int) (StateSet, bool) {
-		b := g.blk
-		_ = b
+			b := g.blk
+			_ = b
 			cf, ok := g.asCmp()
 			if !ok || cf.op != token.EQL {
 				return 0, false
